@@ -335,7 +335,7 @@ def run_like_pair(chk: Check, prog: Program) -> None:
                 def h_get_rand_vars(it2, info, args, kwargs):
                     n = args[0]
                     if not isinstance(n, int):
-                        raise Unsupported("symbolic variable count")
+                        return NotImplemented   # not a literal count (e.g. swapped arguments): interpret the real function
                     return Lst([draw("var") for _ in range(n)])
                 it.hooks["mathy_core/problems.py:get_rand_vars"] = h_get_rand_vars
 
@@ -603,7 +603,7 @@ def _install_generator_model(it: Interp, negative_numbers: bool) -> None:
     def h_get_rand_vars(it2, info, args, kwargs):
         n = args[0]
         if not isinstance(n, int):
-            raise Unsupported("symbolic variable count")
+            return NotImplemented   # not a literal count (e.g. swapped arguments): interpret the real function
         return Lst([draw("var") for _ in range(n)])
     it.hooks["mathy_core/problems.py:get_rand_vars"] = h_get_rand_vars
 
